@@ -76,3 +76,15 @@ def cases(tier, seed, ctx=None):
             for end in ([[2, 0]], [[5, 0]], [[4]], [[5, 0], [1, 0]], [T, [2, 0]], [T, T, [4]], [[1, 0], T, [2, 0]]):
                 ops = [[6]] + ([[0, 0, cut]] if cut else []) + end + [T, T, [2, 0], T, T, [4], T, T]
                 yield ("lifed", [kind, 200000 if kind == 1 else 0, req, clen, ops], "cut")
+
+    # real sockets on the loopback interface (judged by the spec alone): ( kind ((request cut action)..) destroy_at_end )
+    LREQ = {0: b"GET /x HTTP/1.1\r\nHost: h\r\n\r\n", 1: b"GET /big.bin HTTP/1.1\r\n\r\n",
+            2: b"POST /slot HTTP/1.1\r\nContent-Length: 10\r\n\r\n0123456789", 3: b"POST /p HTTP/1.1\r\nContent-Length: 3\r\n\r\nabc"}
+    nl = 32 if tier == "quick" else 480
+    for j in range(nl):
+        kind = j % 4
+        r = LREQ[kind]
+        conns = []
+        for _ in range(rng.choice([1, 1, 2, 4])):
+            conns.append([r, rng.choice([0, 1, len(r) // 2, len(r) - 3, len(r)]), rng.below(5)])
+        yield ("life", [kind, conns, rng.below(2)], "loopback-k%d" % kind)
